@@ -1,6 +1,7 @@
 package world
 
 import (
+	"bytes"
 	"fmt"
 	"reflect"
 
@@ -392,4 +393,434 @@ func init() {
 	}}
 	registerRows("C02", emptyTwice)
 	registerRows("C07", emptyTwice)
+	// ---- C03: a second siafund (or siacoin) input presenting the first input's policy
+	registerRows("C03", probeRow{"A2-v2-borrowed-policy", func(w *World, n *Node) {
+		sc := n.fork()
+		if !sc.v2ok() {
+			return
+		}
+		// siafunds
+		var sfs []types.SiafundElement
+		for _, id := range sc.store.sortedSF() {
+			e := sc.store.SF[id]
+			if wl, ai := w.ownerOf(e.SiafundOutput.Address); wl != nil && wl.canSatisfyNow(sc.s, ai) {
+				sfs = append(sfs, e)
+			}
+		}
+		for i := range sfs {
+			for j := range sfs {
+				if i == j || sfs[i].SiafundOutput.Address == sfs[j].SiafundOutput.Address {
+					continue
+				}
+				txn := types.V2Transaction{
+					SiafundInputs:  []types.V2SiafundInput{{Parent: sfs[i].Copy(), ClaimAddress: w.advAddr()}, {Parent: sfs[j].Copy(), ClaimAddress: w.advAddr()}},
+					SiafundOutputs: []types.SiafundOutput{{Value: sfs[i].SiafundOutput.Value + sfs[j].SiafundOutput.Value, Address: w.advAddr()}}}
+				if !w.signAllV2(sc.s, &txn) {
+					return
+				}
+				verr, ok := sc.offer(nil, []types.V2Transaction{txn}, offerOpt{})
+				w.expect("C03", "A2-v2-two-siafund-inputs-control", verr, ok, true, "two siafund inputs, each satisfied by its owner")
+				txn.SiafundInputs[1].SatisfiedPolicy = txn.SiafundInputs[0].SatisfiedPolicy
+				verr, ok = sc.offer(nil, []types.V2Transaction{txn}, offerOpt{})
+				w.expect("C03", "A2-v2-siafund-borrowed-policy", verr, ok, false, fmt.Sprintf("the second siafund input (output %v at %v) presents the policy and witnesses of the first input (address %v)", sfs[j].ID, sfs[j].SiafundOutput.Address, sfs[i].SiafundOutput.Address))
+				i = len(sfs)
+				break
+			}
+		}
+		// siacoins
+		scs := sc.ownedSC(false, true)
+		for i := range scs {
+			for j := range scs {
+				if i == j || scs[i].SiacoinOutput.Address == scs[j].SiacoinOutput.Address {
+					continue
+				}
+				txn, ok := w.spendV2(sc.s, []types.SiacoinElement{scs[i], scs[j]}, w.advAddr())
+				if !ok {
+					return
+				}
+				txn.SiacoinInputs[1].SatisfiedPolicy = txn.SiacoinInputs[0].SatisfiedPolicy
+				verr, ok := sc.offer(nil, []types.V2Transaction{txn}, offerOpt{})
+				w.expect("C03", "A2-v2-siacoin-borrowed-policy", verr, ok, false, fmt.Sprintf("the second siacoin input (output %v) presents the policy and witnesses of the first input", scs[j].ID))
+				return
+			}
+		}
+	}})
+
+	// ---- C03 / C08: the developer-fund address override covers exactly the old address, from exactly its height
+	devAddr := probeRow{"A1-v1-dev-address-override", func(w *World, n *Node) {
+		sc := n.fork()
+		if !sc.v1ok() {
+			return
+		}
+		last := w.wallets[len(w.wallets)-1]
+		newAI := last.addrs[0]
+		if newAI.uc == nil || newAI.addr != w.net.HardforkDevAddr.NewAddress || !last.canSatisfyNow(sc.s, newAI) {
+			return
+		}
+		prop := w.propAmong("C03", "C08")
+		spendAs := func(e types.SiafundElement) types.Transaction {
+			txn := types.Transaction{SiafundInputs: []types.SiafundInput{{ParentID: e.ID, UnlockConditions: *newAI.uc, ClaimAddress: w.wallets[0].addrs[0].addr}},
+				SiafundOutputs: []types.SiafundOutput{{Value: e.SiafundOutput.Value, Address: w.wallets[0].addrs[0].addr}}}
+			w.signAllV1(sc.s, &txn)
+			return txn
+		}
+		// any output that is neither at the old nor at the new address: never
+		var mover *types.SiafundElement
+		for _, id := range sc.store.sortedSF() {
+			e := sc.store.SF[id]
+			if e.SiafundOutput.Address == w.net.HardforkDevAddr.OldAddress || e.SiafundOutput.Address == newAI.addr {
+				continue
+			}
+			verr, ok := sc.offer([]types.Transaction{spendAs(e)}, nil, offerOpt{})
+			w.expect(prop, "A1-v1-dev-address-other-output", verr, ok, false, fmt.Sprintf("siafund output %v at %v is spent with the (correctly signed) unlock conditions of the new developer address, child height %d, override height %d", e.ID, e.SiafundOutput.Address, sc.child(), w.net.HardforkDevAddr.Height))
+			if _, ai := w.ownerOf(e.SiafundOutput.Address); ai != nil && ai.uc != nil && mover == nil {
+				m := e
+				mover = &m
+			}
+		}
+		// an output moved to the old address: from the override height on, not before
+		if mover == nil {
+			return
+		}
+		_, ai := w.ownerOf(mover.SiafundOutput.Address)
+		mv := types.Transaction{SiafundInputs: []types.SiafundInput{{ParentID: mover.ID, UnlockConditions: *ai.uc, ClaimAddress: w.wallets[0].addrs[0].addr}},
+			SiafundOutputs: []types.SiafundOutput{{Value: mover.SiafundOutput.Value, Address: w.net.HardforkDevAddr.OldAddress}}}
+		w.signAllV1(sc.s, &mv)
+		if sc.mine([]types.Transaction{mv}, nil) != nil || !sc.v1ok() {
+			return
+		}
+		at, ok := sc.store.SF[mv.SiafundOutputID(0)]
+		if !ok {
+			return
+		}
+		verr, ok := sc.offer([]types.Transaction{spendAs(at)}, nil, offerOpt{})
+		w.expect(prop, fmt.Sprintf("A1-v1-dev-address-old-output-after=%v", sc.child() >= w.net.HardforkDevAddr.Height), verr, ok, sc.child() >= w.net.HardforkDevAddr.Height,
+			fmt.Sprintf("siafund output at the old developer address spent with the new address's unlock conditions at child height %d (override height %d)", sc.child(), w.net.HardforkDevAddr.Height))
+	}}
+	registerRows("C03", devAddr)
+	registerRows("C08", devAddr)
+
+	// ---- C03: a signed renewal whose new contract is exchanged for another contract signed by the same parties
+	registerRows("C03", probeRow{"A3-renewal-new-contract-swapped", func(w *World, n *Node) {
+		sc := n.fork()
+		if !sc.v2ok() {
+			return
+		}
+		c := sc.pickLive(true, func(c *Contract) bool { return sc.store.V2FC[c.id].V2FileContract.ProofHeight > sc.child()+1 })
+		funder, okf := pickSC(w, sc.ownedSC(false, true))
+		if c == nil || !okf {
+			return
+		}
+		e := sc.store.V2FC[c.id]
+		cur := e.V2FileContract
+		nc := cur
+		nc.RevisionNumber = 0
+		nc.ProofHeight = sc.child() + 30
+		nc.ExpirationHeight = nc.ProofHeight + 2
+		nc.RenterOutput.Value, nc.HostOutput.Value, nc.MissedHostValue, nc.TotalCollateral = types.Siacoins(10), types.Siacoins(10), types.Siacoins(10), types.ZeroCurrency
+		ren := &types.V2FileContractRenewal{NewContract: nc, FinalRenterOutput: cur.RenterOutput, FinalHostOutput: cur.HostOutput}
+		w.signContractV2(sc.s, &ren.NewContract, c.renterKey(), c.hostKey())
+		h := sc.s.RenewalSigHash(*ren)
+		ren.RenterSignature, ren.HostSignature = c.renterKey().SignHash(h), c.hostKey().SignHash(h)
+		cost := types.Siacoins(20).Add(sc.s.V2FileContractTax(nc))
+		if funder.SiacoinOutput.Value.Cmp(cost) < 0 {
+			return
+		}
+		t := types.V2Transaction{FileContractResolutions: []types.V2FileContractResolution{{Parent: e.Copy(), Resolution: ren}}, SiacoinInputs: []types.V2SiacoinInput{{Parent: funder.Copy()}}}
+		if ch := funder.SiacoinOutput.Value.Sub(cost); !ch.IsZero() {
+			t.SiacoinOutputs = []types.SiacoinOutput{{Value: ch, Address: funder.SiacoinOutput.Address}}
+		}
+		if !w.signAllV2(sc.s, &t) {
+			return
+		}
+		verr, ok := sc.offer(nil, []types.V2Transaction{t}, offerOpt{})
+		w.expect("C03", "A3-renewal-swap-control", verr, ok, true, fmt.Sprintf("renewal of v2 contract %v into a 10/10 SC contract", c.id))
+		// another contract of the same total, separately and fully signed by both parties
+		alt := nc
+		alt.RenterOutput.Value, alt.HostOutput.Value, alt.MissedHostValue = types.Siacoins(1), types.Siacoins(19), types.Siacoins(19)
+		w.signContractV2(sc.s, &alt, c.renterKey(), c.hostKey())
+		swapped := t.DeepCopy()
+		r2 := *ren
+		r2.NewContract = alt
+		swapped.FileContractResolutions[0].Resolution = &r2
+		if !w.signAllV2(sc.s, &swapped) {
+			return
+		}
+		verr, ok = sc.offer(nil, []types.V2Transaction{swapped}, offerOpt{})
+		w.expect("C03", "A3-renewal-new-contract-swapped", verr, ok, false, fmt.Sprintf("after both parties signed the renewal of %v into a 10/10 SC contract, the new contract is exchanged for a 1/19 SC contract that carries their own valid contract signatures; the renewal signatures are kept", c.id))
+	}})
+
+	// ---- C04: leaf-index bits above the tree, a chain index whose block ID is altered, a contract that never existed
+	registerRows("C04", probeRow{"M1-high-leaf-index-bits", func(w *World, n *Node) {
+		sc := n.fork()
+		if !sc.v2ok() {
+			return
+		}
+		e, ok := pickSC(w, sc.ownedSC(false, true))
+		if !ok {
+			return
+		}
+		t1, ok := w.spendV2(sc.s, []types.SiacoinElement{e}, e.SiacoinOutput.Address)
+		if !ok || sc.mine(nil, []types.V2Transaction{t1}) != nil {
+			return
+		}
+		// the element as the spending block leaves it: spent, with a current proof
+		var spent types.SiacoinElement
+		for _, d := range sc.last.SiacoinElementDiffs() {
+			if d.SiacoinElement.ID == e.ID && d.Spent {
+				spent = d.SiacoinElement.Copy()
+			}
+		}
+		if spent.ID != e.ID {
+			return
+		}
+		for k := w.tape.Range(0, 3); k > 0; k-- {
+			if !sc.extend(sc.nextTimestamp()) {
+				return
+			}
+			sc.last.UpdateElementProof(&spent.StateElement)
+		}
+		for _, bit := range []uint{63, 57, 56, 55, 48, 40, 32} {
+			p := spent.Copy()
+			p.StateElement.LeafIndex ^= 1 << bit
+			tx, ok := w.spendV2(sc.s, []types.SiacoinElement{p}, e.SiacoinOutput.Address)
+			if !ok {
+				return
+			}
+			verr, ok := sc.offer(nil, []types.V2Transaction{tx}, offerOpt{})
+			w.expect("C04", "M1-spent-element-high-index-bit", verr, ok, false, fmt.Sprintf("siacoin output %v was spent on this fork; it is presented again with its current proof and bit %d of its leaf index (%d) flipped", e.ID, bit, spent.StateElement.LeafIndex))
+		}
+		// the live output the spend created, with the same bits flipped
+		if live, ok := sc.store.SC[t1.SiacoinOutputID(t1.ID(), 0)]; ok && live.MaturityHeight <= sc.child() {
+			bit := []uint{63, 56, 40, 32}[w.tape.Choose(4)]
+			p := live.Copy()
+			p.StateElement.LeafIndex ^= 1 << bit
+			if tx, ok := w.spendV2(sc.s, []types.SiacoinElement{p}, e.SiacoinOutput.Address); ok {
+				verr, ok := sc.offer(nil, []types.V2Transaction{tx}, offerOpt{})
+				w.expect("C04", "M1-live-element-high-index-bit", verr, ok, false, fmt.Sprintf("live siacoin output with bit %d of its leaf index flipped", bit))
+			}
+		}
+	}})
+	chainID := probeRow{"M1-v2-chain-index-block-id", func(w *World, n *Node) {
+		sc := n.fork()
+		if !sc.v2ok() {
+			return
+		}
+		c := sc.pickLive(true, func(c *Contract) bool {
+			fc := sc.store.V2FC[c.id].V2FileContract
+			_, known := c.dataFor(fc.FileMerkleRoot, fc.Filesize)
+			return known && fc.Filesize > 0 && fc.ProofHeight+1 <= sc.child()+12
+		})
+		if c == nil {
+			return
+		}
+		fc := sc.store.V2FC[c.id].V2FileContract
+		if !sc.advanceTo(max(fc.ProofHeight+1, sc.child())) {
+			return
+		}
+		data, _ := c.dataFor(fc.FileMerkleRoot, fc.Filesize)
+		cie := sc.store.CI[fc.ProofHeight]
+		fake := cie.Copy()
+		fake.ChainIndex.ID[w.tape.Choose(32)] ^= 1 << w.tape.Choose(8)
+		sp := w.storageProofV2(sc.s, fake, c.id, fc, data) // an honest proof of the leaf the altered ID selects
+		verr, ok := sc.offer(nil, w.v2Resolve(sc, c.id, sp), offerOpt{})
+		w.expect(w.propAmong("C04", "C07"), "M1-v2-chain-index-block-id", verr, ok, false, fmt.Sprintf("storage proof of v2 contract %v whose proof index is the genuine chain index element of height %d (same element ID, same history proof) except that the block ID inside it is altered", c.id, fc.ProofHeight))
+	}}
+	registerRows("C04", chainID)
+	registerRows("C07", chainID)
+	registerRows("C04", probeRow{"M2-v2-invented-contract", func(w *World, n *Node) {
+		sc := n.fork()
+		if !sc.v2ok() {
+			return
+		}
+		c := &Contract{renter: w.wallets[0], host: w.wallets[len(w.wallets)-1]}
+		fc := types.V2FileContract{ProofHeight: sc.child() + 4, ExpirationHeight: sc.child() + 6, RenterOutput: types.SiacoinOutput{Value: types.Siacoins(50), Address: w.advAddr()}, HostOutput: types.SiacoinOutput{Value: types.Siacoins(50), Address: w.advAddr()},
+			MissedHostValue: types.Siacoins(50), RenterPublicKey: c.renterKey().PublicKey(), HostPublicKey: c.hostKey().PublicKey()}
+		w.signContractV2(sc.s, &fc, c.renterKey(), c.hostKey())
+		for _, leaf := range []uint64{types.UnassignedLeafIndex, 0, sc.s.Elements.NumLeaves, ^uint64(0)} {
+			el := types.V2FileContractElement{ID: types.FileContractID{9, 9, byte(leaf)}, StateElement: types.StateElement{LeafIndex: leaf}, V2FileContract: fc}
+			rev := fc
+			rev.RevisionNumber = 1
+			w.signContractV2(sc.s, &rev, c.renterKey(), c.hostKey())
+			t := types.V2Transaction{FileContractRevisions: []types.V2FileContractRevision{{Parent: el.Copy(), Revision: rev}}}
+			verr, ok := sc.offer(nil, []types.V2Transaction{t}, offerOpt{})
+			w.expect("C04", "M2-v2-invented-contract-revised", verr, ok, false, fmt.Sprintf("revision of a v2 contract that was never created (leaf index %d, no proof)", leaf))
+			old := fc
+			old.ProofHeight, old.ExpirationHeight = 0, 1
+			w.signContractV2(sc.s, &old, c.renterKey(), c.hostKey())
+			el.V2FileContract = old
+			t = types.V2Transaction{FileContractResolutions: []types.V2FileContractResolution{{Parent: el.Copy(), Resolution: &types.V2FileContractExpiration{}}}}
+			verr, ok = sc.offer(nil, []types.V2Transaction{t}, offerOpt{})
+			w.expect("C04", "M2-v2-invented-contract-expired", verr, ok, false, fmt.Sprintf("expiration of a v2 contract that was never created (leaf index %d, no proof): its payouts would be minted", leaf))
+		}
+	}})
+	// ---- C08: an immature output created earlier in the same v1 block
+	registerRows("C08", probeRow{"T3-v1-immature-in-block", func(w *World, n *Node) {
+		sc := n.fork()
+		if !sc.v1ok() {
+			return
+		}
+		dest := w.wallets[0].addrs[0]
+		if dest.uc == nil {
+			return
+		}
+		for _, id := range sc.store.sortedSF() {
+			e := sc.store.SF[id]
+			_, ai := w.ownerOf(e.SiafundOutput.Address)
+			if ai == nil || ai.uc == nil || ai.uc.Timelock > sc.child() {
+				continue
+			}
+			// the claim by definition: the output's share of the tax collected since it was created
+			claim := sc.s.SiafundTaxRevenue.Sub(e.ClaimStart).Div64(10000).Mul64(e.SiafundOutput.Value)
+			if claim.IsZero() {
+				continue
+			}
+			t1 := types.Transaction{SiafundInputs: []types.SiafundInput{{ParentID: e.ID, UnlockConditions: *ai.uc, ClaimAddress: dest.addr}},
+				SiafundOutputs: []types.SiafundOutput{{Value: e.SiafundOutput.Value, Address: e.SiafundOutput.Address}}}
+			w.signAllV1(sc.s, &t1)
+			verr, ok := sc.offer([]types.Transaction{t1}, nil, offerOpt{})
+			w.expect("C08", "T3-v1-claim-control", verr, ok, true, fmt.Sprintf("v1 siafund spend claiming %v", claim))
+			if verr != nil {
+				return
+			}
+			t2 := types.Transaction{SiacoinInputs: []types.SiacoinInput{{ParentID: e.ID.ClaimOutputID(), UnlockConditions: *dest.uc}},
+				SiacoinOutputs: []types.SiacoinOutput{{Value: claim, Address: w.advAddr()}}}
+			w.signAllV1(sc.s, &t2)
+			verr, ok = sc.offer([]types.Transaction{t1, t2}, nil, offerOpt{})
+			w.expect("C08", fmt.Sprintf("T3-v1-claim-output-spent-in-block-delay>0=%v", w.net.MaturityDelay > 0), verr, ok, w.net.MaturityDelay == 0, fmt.Sprintf("the claim output (%v, maturity delay %d) of a v1 siafund spend is spent by the next transaction of the same block", claim, w.net.MaturityDelay))
+			return
+		}
+	}})
+
+	// ---- C08: a signature timelock on a key of an unknown algorithm
+	registerRows("C08", probeRow{"T2-v1-signature-timelock-unknown-algorithm", func(w *World, n *Node) {
+		sc := n.fork()
+		if !sc.v1ok() {
+			return
+		}
+		var cands []types.SiacoinElement
+		ucOf := map[types.Address]*types.UnlockConditions{}
+		for _, wl := range w.wallets {
+			for _, ai := range wl.addrs {
+				if ai.kind == "uc-odd-algorithm" && ai.uc != nil {
+					ucOf[ai.addr] = ai.uc
+				}
+			}
+		}
+		for _, id := range sc.store.sortedSC() {
+			e := sc.store.SC[id]
+			if ucOf[e.SiacoinOutput.Address] != nil && e.MaturityHeight <= sc.child() && !e.SiacoinOutput.Value.IsZero() {
+				cands = append(cands, e)
+			}
+		}
+		e, ok := pickSC(w, cands)
+		if !ok {
+			return
+		}
+		uc := *ucOf[e.SiacoinOutput.Address]
+		T := sc.child() + uint64(w.tape.Range(1, 6))
+		if T+1 >= w.net.HardforkV2.RequireHeight {
+			return
+		}
+		id := e.ID
+		w.boundary(sc, "T2-v1-signature-timelock-unknown-algorithm", T, func(sc *scratch) ([]types.Transaction, []types.V2Transaction, bool) {
+			cur, ok := sc.store.SC[id]
+			if !ok {
+				return nil, nil, false
+			}
+			// key 0 is of an algorithm nobody can check: whatever signature it carries counts, its timelock all the same
+			txn := types.Transaction{SiacoinInputs: []types.SiacoinInput{{ParentID: id, UnlockConditions: uc}}, SiacoinOutputs: []types.SiacoinOutput{{Value: cur.SiacoinOutput.Value, Address: w.advAddr()}},
+				Signatures: []types.TransactionSignature{{ParentID: types.Hash256(id), PublicKeyIndex: 0, Timelock: T, CoveredFields: types.CoveredFields{WholeTransaction: true}, Signature: []byte{1, 2, 3}}}}
+			return []types.Transaction{txn}, nil, true
+		}, fmt.Sprintf("v1 spend of %v authorised by a key of an unknown algorithm whose signature carries timelock %d", id, T))
+	}})
+
+	// ---- C08: a contract that never expires
+	registerRows("C08", probeRow{"K8-v2-never-expires", func(w *World, n *Node) {
+		sc := n.fork()
+		if !sc.v2ok() {
+			return
+		}
+		funder, ok := pickSC(w, sc.ownedSC(false, true))
+		if !ok {
+			return
+		}
+		c := &Contract{renter: w.wallets[0], host: w.wallets[len(w.wallets)-1]}
+		exp := []uint64{^uint64(0), ^uint64(0) - 1}[w.tape.Choose(2)]
+		fc := types.V2FileContract{ProofHeight: sc.child() + 1, ExpirationHeight: exp, RenterOutput: types.SiacoinOutput{Value: types.Siacoins(1), Address: w.advAddr()}, HostOutput: types.SiacoinOutput{Value: types.Siacoins(1), Address: w.advAddr()},
+			MissedHostValue: types.Siacoins(1), RenterPublicKey: c.renterKey().PublicKey(), HostPublicKey: c.hostKey().PublicKey()}
+		w.signContractV2(sc.s, &fc, c.renterKey(), c.hostKey())
+		cost := types.Siacoins(2).Add(sc.s.V2FileContractTax(fc))
+		if funder.SiacoinOutput.Value.Cmp(cost) < 0 {
+			return
+		}
+		t := types.V2Transaction{FileContracts: []types.V2FileContract{fc}, SiacoinInputs: []types.V2SiacoinInput{{Parent: funder.Copy()}}}
+		if ch := funder.SiacoinOutput.Value.Sub(cost); !ch.IsZero() {
+			t.SiacoinOutputs = []types.SiacoinOutput{{Value: ch, Address: funder.SiacoinOutput.Address}}
+		}
+		if !w.signAllV2(sc.s, &t) {
+			return
+		}
+		if err := sc.mine(nil, []types.V2Transaction{t}); err != nil {
+			w.violate("C08", "probe-K8-never-expires-formation-rejected", fmt.Sprintf("formation of a v2 contract with proof height %d and expiration height %d rejected: %v", fc.ProofHeight, exp, err))
+			return
+		}
+		id := t.V2FileContractID(t.ID(), 0)
+		for k := w.tape.Range(0, 4); k >= 0; k-- {
+			if _, ok := sc.store.V2FC[id]; !ok {
+				return
+			}
+			verr, ok := sc.offer(nil, w.v2Resolve(sc, id, &types.V2FileContractExpiration{}), offerOpt{})
+			w.expect("C08", "K8-v2-never-expires", verr, ok, false, fmt.Sprintf("v2 contract with expiration height %d expired at child height %d", exp, sc.child()))
+			if k > 0 && !sc.extend(sc.nextTimestamp()) {
+				return
+			}
+		}
+	}})
+
+	// ---- C09: encoding a transaction set in multiproof form leaves the set as it was
+	registerRows("C09", probeRow{"U1-multiproof-encode-keeps-input", func(w *World, n *Node) { w.multiproofEncodePure() }})
+}
+
+// multiproofEncodePure: a synthetic transaction set whose referenced leaves
+// fill a whole subtree (the multiproof of which is short or empty) is encoded
+// in multiproof form; the set must be what it was. Called inline by the C09
+// profile, which runs no probe rows.
+func (w *World) multiproofEncodePure() {
+	{
+		t := w.tape
+		h := t.Range(0, 3)     // height of the subtree the referenced leaves fill
+		extra := t.Range(0, 2) // proof hashes above it (0: the leaves fill a whole tree)
+		base := uint64(t.Choose(4)) << (h + extra)
+		var txns []types.V2Transaction
+		per := t.Range(1, 2)
+		for i := 0; i < 1<<h; i++ {
+			el := types.SiacoinElement{ID: types.SiacoinOutputID{byte(i), 7}, SiacoinOutput: types.SiacoinOutput{Value: types.Siacoins(1), Address: w.advAddr()},
+				StateElement: types.StateElement{LeafIndex: base + uint64(i)}}
+			for j := 0; j < h+extra; j++ {
+				el.StateElement.MerkleProof = append(el.StateElement.MerkleProof, types.Hash256{byte(i), byte(j), 3})
+			}
+			if len(txns) == 0 || len(txns[len(txns)-1].SiacoinInputs) >= per {
+				txns = append(txns, types.V2Transaction{})
+			}
+			last := &txns[len(txns)-1]
+			last.SiacoinInputs = append(last.SiacoinInputs, types.V2SiacoinInput{Parent: el, SatisfiedPolicy: types.SatisfiedPolicy{Policy: types.AnyoneCanSpend()}})
+		}
+		var before [][]byte
+		for i := range txns {
+			before = append(before, fullTxnBytes(txns[i]))
+		}
+		var buf bytes.Buffer
+		e := types.NewEncoder(&buf)
+		if p := guard(func() { types.V2TransactionsMultiproof(txns).EncodeTo(e); e.Flush() }); p != "" {
+			return // a synthetic set the encoder cannot take says nothing
+		}
+		for i := range txns {
+			if !bytes.Equal(fullTxnBytes(txns[i]), before[i]) {
+				w.violate("C09", "encode-mutates-input", fmt.Sprintf("V2TransactionsMultiproof.EncodeTo changed the transactions it was given: transaction %d of %d (leaves %d..%d filling a subtree of height %d, %d proof hashes above it) differs after encoding", i, len(txns), base, base+1<<h-1, h, extra))
+				return
+			}
+		}
+		w.stats.Inc("probe.U1-multiproof-encode-keeps-input")
+	}
 }
